@@ -24,6 +24,18 @@ META["explanation"] += ' R12.3 the view handed to the next stage is in source or
 
 
 def run(ctx):
+    parts_rules(ctx)
+    # per-stage rules
+    from . import c09, c10, c11
+    for m in (c09, c10, c11):
+        m.run(ctx)
+
+
+def parts_rules(ctx):
+    """R12.1 / R12.2: what `into_parts` hands to the next stage, and that the ext methods pass both parts on."""
+    if getattr(ctx, "_parts_done", False):
+        return
+    ctx._parts_done = True
     F = ctx.facts
     n = 0
     for imp in F.impls:
@@ -112,7 +124,3 @@ def run(ctx):
             ctx.verdict(ok, "R12.2", f, "ext-passes-parts", b.line_at((blk, 10 ** 6)), "%s(items, stream, ..) with both parts of into_parts()" % F.local_callee(f, t).name,
                         "`%s` does not hand the two parts of into_parts() unchanged to the adapter constructor" % f.path)
     ctx.floor("R12.2", k, 14)
-    # per-stage rules
-    from . import c09, c10, c11
-    for m in (c09, c10, c11):
-        m.run(ctx)
